@@ -32,6 +32,7 @@ class EpollFdEvent;
 struct EpollFdSharedData {
     int fd = 0;     //!< 文件描述符
     int ref = 0;    //!< 引用计数
+    uint64_t serial = 0;    //!< 创建序号，用于识别等待返回之后才创建的共享数据
     struct epoll_event ev;
 
     int read_event_num = 0;     //!< 监听可读事件的FdEvent个数
